@@ -207,7 +207,16 @@ func (v *catalog_[K, V]) RemoveValue(key K) V {
 	var old V // Set the return value to its zero value.
 	var association, exists = v.keys_[key]
 	if exists {
-		var index = v.associations_.GetIndex(association)
+		// Locate the association by its key, associations with equal content
+		// are not interchangeable.
+		var index int
+		var iterator = v.associations_.GetIterator()
+		for iterator.HasNext() {
+			index++
+			if iterator.GetNext().GetKey() == key {
+				break
+			}
+		}
 		v.associations_.RemoveValue(index)
 		old = association.GetValue()
 		delete(v.keys_, key)
